@@ -769,15 +769,155 @@ theorem bucklin_whole_refusals_all {p : RProfile} {e : Err} (h : evalBucklin p =
   · rw [evalBucklin_eq p hp] at h
     simp at h
 
-/-- default Bucklin (shared ranks split over the compatible strict orders first): the same over the candidates of the
-    decoupled profile -/
-theorem bucklin_shape_partial {p : RProfile} (h1 : 1 ≤ (allRankedCandidates (decouple p)).length) {r : List Slot}
-    (h : evalBucklinSplit p = .ok r) : r = [] ∨ SelShape (allRankedCandidates (decouple p)) 1 r :=
-  bucklin_whole_shape_partial h1 h
+/-! `_decouple_equal_rankings` neither invents candidates nor loses the last ballot -/
 
-theorem bucklin_refusals {p : RProfile} (h1 : 1 ≤ (allRankedCandidates (decouple p)).length) {e : Err}
-    (h : evalBucklinSplit p = .error e) : e = .votingSystemError ∨ e = .notImplemented :=
-  bucklin_whole_refusals h1 h
+theorem mem_dkeys_foldl_addTo_const' (l : List Ballot) (w : Rat) (acc : RProfile) (k : Ballot) :
+    k ∈ dkeys (l.foldl (fun a c => addTo a c w) acc) ↔ k ∈ dkeys acc ∨ k ∈ l := by
+  induction l generalizing acc with
+  | nil => simp
+  | cons c cs ih =>
+    rw [List.foldl_cons, ih, mem_dkeys_addTo]
+    simp only [List.mem_cons]
+    tauto
+
+/-- an invariant of the dictionary under construction in `_decouple_equal_rankings` -/
+theorem decouple_inv (P : RProfile → Prop) (p : RProfile) (h0 : P p)
+    (hstep : ∀ (nv : RProfile) (bw : Ballot × Rat), bw ∈ p → P nv →
+      P ((linearize bw.1).foldl (fun nv v => addTo nv v (bw.2 / ((linearize bw.1).length : Rat)))
+        (nv.filter (fun e => e.1 ≠ bw.1)))) : P (decouple p) := by
+  unfold decouple
+  have key : ∀ (l : RProfile) (nv : RProfile), (∀ bw ∈ l, bw ∈ p) → P nv →
+      P (l.foldl (fun nv bw =>
+        if bw.1.any isShared then
+          let vars := linearize bw.1
+          vars.foldl (fun nv v => addTo nv v (bw.2 / (vars.length : Rat))) (nv.filter (fun e => e.1 ≠ bw.1))
+        else nv) nv) := by
+    intro l
+    induction l with
+    | nil => intro nv _ h; exact h
+    | cons bw t ih =>
+      intro nv hl h
+      rw [List.foldl_cons]
+      apply ih _ (fun x hx => hl x (List.mem_cons_of_mem _ hx))
+      split
+      · exact hstep nv bw (hl bw List.mem_cons_self) h
+      · exact h
+  exact key p p (fun _ h => h) h0
+
+theorem perms_ne_nil (l : List Cand) : Condorcet.perms l ≠ [] := by
+  intro h
+  have := (Condorcet.mem_perms (l := l) (q := l)).2 (List.Perm.refl _)
+  rw [h] at this
+  simp at this
+
+theorem linearize_ne_nil (b : Ballot) : linearize b ≠ [] := by
+  induction b with
+  | nil => simp [linearize]
+  | cons it rest ih =>
+    obtain ⟨l, hl⟩ := List.exists_mem_of_ne_nil _ ih
+    cases it with
+    | one c => simp [linearize, ih]
+    | shared cs =>
+      obtain ⟨pc, hpc⟩ := List.exists_mem_of_ne_nil _ (perms_ne_nil cs)
+      intro h
+      have : pc.map RankItem.one ++ l ∈ linearize (RankItem.shared cs :: rest) := by
+        simp only [linearize]
+        exact List.mem_flatMap.2 ⟨pc, hpc, List.mem_map.2 ⟨l, hl, rfl⟩⟩
+      rw [h] at this
+      simp at this
+
+theorem ballotCands_map_one (l : List Cand) : ballotCands (l.map RankItem.one) = l := by
+  induction l with
+  | nil => rfl
+  | cons a t ih =>
+    simp only [ballotCands, List.map_cons, List.flatMap_cons, RankItem.cands] at ih ⊢
+    rw [ih]; rfl
+
+theorem linearize_cands {b l : Ballot} (hl : l ∈ linearize b) : ∀ c ∈ ballotCands l, c ∈ ballotCands b := by
+  induction b generalizing l with
+  | nil =>
+    simp only [linearize, List.mem_singleton] at hl
+    subst hl; intro c hc; exact hc
+  | cons it rest ih =>
+    cases it with
+    | one d =>
+      simp only [linearize, List.mem_map] at hl
+      obtain ⟨l', hl', rfl⟩ := hl
+      intro c hc
+      simp only [ballotCands, List.flatMap_cons, List.mem_append] at hc ⊢
+      rcases hc with hc | hc
+      · exact Or.inl hc
+      · exact Or.inr (ih hl' c hc)
+    | shared cs =>
+      simp only [linearize, List.mem_flatMap, List.mem_map] at hl
+      obtain ⟨pc, hpc, l', hl', rfl⟩ := hl
+      intro c hc
+      have hsplit : ballotCands (pc.map RankItem.one ++ l') = pc ++ ballotCands l' := by
+        have := ballotCands_map_one pc
+        unfold ballotCands at this ⊢
+        rw [List.flatMap_append, this]
+      rw [hsplit] at hc
+      simp only [ballotCands, List.flatMap_cons, List.mem_append, RankItem.cands] at hc ⊢
+      rcases hc with hc | hc
+      · exact Or.inl ((Condorcet.mem_perms.1 hpc).subset hc)
+      · exact Or.inr (ih hl' c hc)
+
+theorem decouple_cands_sub (p : RProfile) : ∀ c ∈ allRankedCandidates (decouple p), c ∈ allRankedCandidates p := by
+  have hinv : ∀ b' ∈ dkeys (decouple p), ∀ c ∈ ballotCands b', c ∈ allRankedCandidates p := by
+    apply decouple_inv (fun nv => ∀ b' ∈ dkeys nv, ∀ c ∈ ballotCands b', c ∈ allRankedCandidates p)
+    · intro b' hb' c hc
+      obtain ⟨bw, hbw, rfl⟩ := List.mem_map.1 hb'
+      exact (mem_allRankedCandidates p c).2 ⟨bw, hbw, hc⟩
+    · intro nv bw hbw hnv b' hb' c hc
+      rcases (mem_dkeys_foldl_addTo_const' _ _ _ _).1 hb' with h | h
+      · obtain ⟨e, he, rfl⟩ := List.mem_map.1 h
+        exact hnv _ (List.mem_map.2 ⟨e, (List.mem_filter.1 he).1, rfl⟩) c hc
+      · exact (mem_allRankedCandidates p c).2 ⟨bw, hbw, linearize_cands h c hc⟩
+  intro c hc
+  obtain ⟨bw, hbw, hcb⟩ := (mem_allRankedCandidates _ c).1 hc
+  exact hinv _ (List.mem_map.2 ⟨bw, hbw, rfl⟩) c hcb
+
+theorem decouple_ne_nil {p : RProfile} (hp : p ≠ []) : decouple p ≠ [] := by
+  apply decouple_inv (fun nv => nv ≠ []) p hp
+  intro nv bw _ _ hnil
+  obtain ⟨l, hl⟩ := List.exists_mem_of_ne_nil _ (linearize_ne_nil bw.1)
+  have := (mem_dkeys_foldl_addTo_const' (linearize bw.1) (bw.2 / ((linearize bw.1).length : Rat))
+    (nv.filter (fun e => e.1 ≠ bw.1)) l).2 (Or.inr hl)
+  rw [hnil] at this
+  simp [dkeys] at this
+
+/- Full statement (FALSE of the current code, `bucklin_short_witness`; open finding C08-preference-addition-short-list):
+     theorem bucklin_shape : 1 ≤ (allRankedCandidates p).length → evalBucklinSplit p = .ok r → SelShape (allRankedCandidates p) 1 r -/
+
+/-- **Default Bucklin (`PreferenceAddition()`: shared ranks split over the compatible strict orders first), one seat
+    (partial)**: the answer is empty or has the selection shape for one seat over the candidates of the profile. -/
+theorem bucklin_shape_partial {p : RProfile} (h1 : 1 ≤ (allRankedCandidates p).length) {r : List Slot}
+    (h : evalBucklinSplit p = .ok r) : r = [] ∨ SelShape (allRankedCandidates p) 1 r := by
+  have hp : p ≠ [] := by
+    rintro rfl
+    revert h1
+    decide
+  have hd : decouple p ≠ [] := decouple_ne_nil hp
+  unfold evalBucklinSplit at h
+  rw [evalBucklin_eq _ hd] at h
+  simp only [Except.ok.injEq] at h
+  subst h
+  rcases loopA_shape (cum (decouple p)) _ (nodup_cum _) (keys_cum_sub _) (sumValues (decouple p) / 2)
+    (maxLen (decouple p)) 0 with h | h
+  · exact Or.inl h
+  · exact Or.inr (h.mono (decouple_cands_sub p))
+
+/-- default Bucklin never refuses when a candidate is present (FULL: no error value at all) -/
+theorem bucklin_refusals {p : RProfile} (h1 : 1 ≤ (allRankedCandidates p).length) {e : Err}
+    (h : evalBucklinSplit p = .error e) : e = .votingSystemError ∨ e = .notImplemented := by
+  exfalso
+  have hp : p ≠ [] := by
+    rintro rfl
+    revert h1
+    decide
+  unfold evalBucklinSplit at h
+  rw [evalBucklin_eq _ (decouple_ne_nil hp)] at h
+  simp at h
 
 /-- `bucklin_shape` is FALSE of the current code: `a:1, b:1` — nobody exceeds the quota 1 — gives `[]` for one seat -/
 theorem bucklin_short_witness :
@@ -791,7 +931,8 @@ theorem bucklin_short_witness :
 
 example : 1 ≤ (allRankedCandidates [([RankItem.one 0, RankItem.one 1], (2 : Rat)), ([RankItem.one 1], 1)]).length ∧
     evalBucklin [([RankItem.one 0, RankItem.one 1], 2), ([RankItem.one 1], 1)] = .ok [Slot.cand 0] := by decide +kernel
-example : evalBucklinSplit [([RankItem.shared [0, 1]], (2 : Rat)), ([RankItem.one 2], 2)] = .ok [Slot.cand 2] := by
+example : 1 ≤ (allRankedCandidates [([RankItem.one 0, RankItem.one 1], (2 : Rat)), ([RankItem.one 1], 2)]).length ∧
+    evalBucklinSplit [([RankItem.one 0, RankItem.one 1], 2), ([RankItem.one 1], 2)] = .ok [Slot.cand 1] := by
   decide +kernel
 
 end VL.C08
